@@ -152,6 +152,84 @@ Example C13_ex_elligator2_gf13 : forall u, exists v w,
   F13_add F13_1 (F13_mul F13_1 (F13_mul (F13_mul v v) (F13_mul w w))).
 Proof. exact F13_ell2_correct. Qed.
 
+(* ---------- Elligator 2: the coded map IS the RFC 9380 map, exceptional inputs included ---------- *)
+(* RFC 9380 section 6.7.1 steps 1-10 (`ell2_rfc_mont`; step 2: "if x1 == 0, set x1 = -(J/K)") followed by the rational
+   map of appendix D.1 (`mont_to_te`).  No premise on the shape of the field (nothing like p = 1 mod 4): over
+   p = 3 (mod 4) the exceptional denominator 1 + Z u^2 has the roots u = +-sqrt(-1/Z) and they are covered.  The only
+   excluded inputs are those with gx1 = 0, where the code (Legendre symbol of 0 is not "QR") takes x2 and the RFC
+   (is_square(0) = true) takes x1 -- observation O-a in NOTES.md; for such u C13_elligator2_correct still applies. *)
+Theorem C13_elligator2_equals_rfc :
+  forall (K : Type) (zero one : K) (add sub mul : K -> K -> K) (neg inv : K -> K) (div : K -> K -> K)
+         (eqb : K -> K -> bool),
+  field_theory zero one add mul sub neg div inv eq -> (forall a b, eqb a b = true <-> a = b) ->
+  forall (is_qr : K -> bool) (sqrt : K -> option K) (parity : K -> bool) (k j jk ki z ta td : K),
+  k <> zero -> mul jk k = j -> mul ki (mul k k) = one ->
+  mul ta k = add j (add one one) -> mul td k = sub j (add one one) ->
+  (forall x, is_qr x = true -> exists r, sqrt x = Some r /\ mul r r = x) ->
+  sqrt zero = Some zero ->
+  (forall x, x <> zero -> is_qr x = false -> is_qr (mul z x) = true) ->
+  (forall c x, c <> zero -> is_qr (mul (mul c c) x) = is_qr x) ->
+  forall u,
+    (let x1 := ell2_rfc_x1 zero one add mul neg inv eqb jk z u in
+     add (add (mul (mul x1 x1) x1) (mul jk (mul x1 x1))) (mul x1 ki) <> zero) ->
+    exists Q,
+      ell2_rfc_mont zero one add sub mul neg inv eqb is_qr sqrt parity k j z u = Some Q /\
+      ell2_coded zero one add sub mul neg inv eqb is_qr sqrt parity k jk ki z ta td u =
+        MOk (mont_to_te zero one add sub mul inv eqb Q).
+Proof. exact (@ell2_coded_equals_rfc). Qed.
+
+(* the exceptional inputs: 1 + Z u^2 = 0.  J <> 0 (a precondition of Elligator 2) is all that is needed *)
+Theorem C13_elligator2_exceptional_is_rfc :
+  forall (K : Type) (zero one : K) (add sub mul : K -> K -> K) (neg inv : K -> K) (div : K -> K -> K)
+         (eqb : K -> K -> bool),
+  field_theory zero one add mul sub neg div inv eq -> (forall a b, eqb a b = true <-> a = b) ->
+  forall (is_qr : K -> bool) (sqrt : K -> option K) (parity : K -> bool) (k j jk ki z ta td : K),
+  k <> zero -> mul jk k = j -> mul ki (mul k k) = one ->
+  mul ta k = add j (add one one) -> mul td k = sub j (add one one) ->
+  (forall x, is_qr x = true -> exists r, sqrt x = Some r /\ mul r r = x) ->
+  sqrt zero = Some zero ->
+  (forall x, x <> zero -> is_qr x = false -> is_qr (mul z x) = true) ->
+  (forall c x, c <> zero -> is_qr (mul (mul c c) x) = is_qr x) ->
+  forall u, jk <> zero -> add one (mul z (mul u u)) = zero ->
+    exists Q,
+      ell2_rfc_mont zero one add sub mul neg inv eqb is_qr sqrt parity k j z u = Some Q /\
+      ell2_coded zero one add sub mul neg inv eqb is_qr sqrt parity k jk ki z ta td u =
+        MOk (mont_to_te zero one add sub mul inv eqb Q).
+Proof. exact (@ell2_exceptional_is_rfc). Qed.
+
+(* ... and their value (RFC steps 1-2: x1 = -(J/K); gx1 = g(-J/K) = -(J/K)/K^2): if gx1 is a square the Montgomery
+   point is (-J, K y) with y^2 = gx1 and sgn0(y) = 1; otherwise x2 = 0, the point is (0, 0) and its image the identity *)
+Theorem C13_elligator2_exceptional_value :
+  forall (K : Type) (zero one : K) (add sub mul : K -> K -> K) (neg inv : K -> K) (div : K -> K -> K)
+         (eqb : K -> K -> bool),
+  field_theory zero one add mul sub neg div inv eq -> (forall a b, eqb a b = true <-> a = b) ->
+  forall (is_qr : K -> bool) (sqrt : K -> option K) (parity : K -> bool) (k j jk ki z ta td : K),
+  k <> zero -> mul jk k = j -> mul ki (mul k k) = one ->
+  mul ta k = add j (add one one) -> mul td k = sub j (add one one) ->
+  (forall x, is_qr x = true -> exists r, sqrt x = Some r /\ mul r r = x) ->
+  sqrt zero = Some zero ->
+  (forall x, x <> zero -> is_qr x = false -> is_qr (mul z x) = true) ->
+  (forall c x, c <> zero -> is_qr (mul (mul c c) x) = is_qr x) ->
+  forall u, add one (mul z (mul u u)) = zero ->
+    (is_qr (neg (mul jk ki)) = true ->
+       exists y0, sqrt (neg (mul jk ki)) = Some y0 /\ mul y0 y0 = neg (mul jk ki) /\
+         ell2_coded zero one add sub mul neg inv eqb is_qr sqrt parity k jk ki z ta td u =
+           MOk (mont_to_te zero one add sub mul inv eqb
+                  (mul (neg jk) k, mul (if parity y0 then y0 else neg y0) k))) /\
+    (is_qr (neg (mul jk ki)) = false ->
+       ell2_coded zero one add sub mul neg inv eqb is_qr sqrt parity k jk ki z ta td u = MOk (zero, one)).
+Proof. exact (@ell2_exceptional_value). Qed.
+
+(* GF(7) is a field with p = 3 (mod 4): for Z = -1 = 6 the inputs u = 1, 6 are exceptional (1 + Z u^2 = 0), and with
+   J = 3, K = 1 every premise holds for every u (x^2 + 3 x + 1 has no root, so gx1 <> 0 throughout) *)
+Example C13_ex_elligator2_gf7_is_rfc : forall u, exists Q,
+  F7_ell2_rfc u = Some Q /\ F7_ell2 u = MOk (F7_mont_to_te Q).
+Proof. exact F7_ell2_is_rfc. Qed.
+Example C13_ex_elligator2_gf7_exceptional :
+  F7_add F7_1 (F7_mul F7_6 (F7_mul F7_1 F7_1)) = F7_0 /\
+  F7_ell2_rfc F7_1 = Some (F7_4, F7_5) /\ F7_ell2 F7_1 = MOk (F7_5, F7_2) /\ F7_ell2 F7_6 = MOk (F7_5, F7_2).
+Proof. exact F7_ell2_exceptional. Qed.
+
 (* ---------- isogeny of the Wahby-Boneh map (wb.rs) ---------- *)
 (* if the coefficient-wise identity yn^2 (x^3 + a' x + b') xd^3 = (xn^3 + A xn xd^2 + B xd^3) yd^2 holds in K[x]
    (`iso_identity`, a closed computation), then EVERY point of E' with non-vanishing denominators is sent to a point of
